@@ -122,7 +122,7 @@ class VLMMtxRHSComp(om.ExplicitComponent):
         self.normals_n_3 = np.zeros((system_size, 3))
         self.set_check_partial_options(wrt="*", method="fd", step=1e-5)
 
-    def compute(self, inputs, outputs):
+    def _assemble(self, inputs):
         surfaces = self.options["surfaces"]
 
         system_size = self.system_size
@@ -148,6 +148,9 @@ class VLMMtxRHSComp(om.ExplicitComponent):
 
             ind_1 += num
 
+    def compute(self, inputs, outputs):
+        self._assemble(inputs)
+
         # Actually obtain the final matrix by multiplying through with the
         # normals. Also create the rhs based on v dot n.
         outputs["mtx"] = np.einsum("ijk,ik->ij", self.mtx_n_n_3, self.normals_n_3)
@@ -157,6 +160,9 @@ class VLMMtxRHSComp(om.ExplicitComponent):
         surfaces = self.options["surfaces"]
 
         system_size = self.system_size
+
+        # The work arrays must reflect the current inputs, not those of the last compute call
+        self._assemble(inputs)
 
         ind_1 = 0
         ind_2 = 0
